@@ -828,3 +828,338 @@ Proof.
                   |t has ? ? ? ? ? ? ? ? ? ? E1| ]; try (destruct has; discriminate).
   subst. exists z. split; [reflexivity|]. apply ZarithInt_canonical, HZ.
 Qed.
+
+(* ================================================================ the index-style decoder *)
+
+Lemma seq_len_arr body r : fits body = true -> seq_len (arr body ++ r) = Some (length body, body ++ r).
+Proof.
+  unfold fits, arr, be32. intro H. rewrite N_to_be_4. cbn [app]. unfold seq_len.
+  rewrite <- N_to_be_4, be_to_N_N_to_be by lia. rewrite app_length, Nat2N.id.
+  destruct (N.of_nat (length body) <=? N.of_nat (length body + length r))%N eqn:E; [reflexivity|lia].
+Qed.
+
+Lemma seq_len_sound bs n r1 :
+  seq_len bs = Some (n, r1) -> bs = be32 n ++ r1 /\ n <= length r1 /\ (N.of_nat n < two32)%N.
+Proof.
+  destruct bs as [|a0 [|a1 [|a2 [|a3 r0]]]]; try discriminate. unfold seq_len.
+  pose proof (be_to_N_4_lt a0 a1 a2 a3) as Hlt.
+  set (len := be_to_N [a0; a1; a2; a3]) in *.
+  destruct (len <=? N.of_nat (length r0))%N eqn:E; [|discriminate].
+  intro H. apply some_pair_inj in H. destruct H as [<- <-]. split; [|split; lia].
+  unfold be32. rewrite N2Nat.id. unfold len. rewrite N_to_be_be_to_N. reflexivity.
+Qed.
+
+Section Index.
+  Variable known : byte -> bool.
+  Variable str_ok : bytes -> bool.
+
+  Notation pdec := (pdec known str_ok).
+  Notation pseq := (pseq known str_ok).
+  Notation dec_annots := (dec_annots str_ok).
+  Notation Enc := (Enc known str_ok).
+  Notation EncList := (EncList known str_ok).
+  Notation AnnPart := (AnnPart str_ok).
+
+  Lemma pdec_S_int f r :
+    pdec (S f) (x00 :: r) =
+    match dec_int r with Some (z, rest) => DOk (NInt z, rest) | None => DReject end.
+  Proof. reflexivity. Qed.
+
+  Lemma pdec_S_str f r :
+    pdec (S f) (x01 :: r) =
+    match take_arr r with
+    | Some (s, rest) => if str_ok s then DOk (NStr s, rest) else DReject
+    | None => DReject
+    end.
+  Proof. reflexivity. Qed.
+
+  Lemma pdec_S_byt f r :
+    pdec (S f) (x0a :: r) =
+    match take_arr r with Some (b, rest) => DOk (NByt b, rest) | None => DReject end.
+  Proof. reflexivity. Qed.
+
+  Lemma pdec_S_seq f r :
+    pdec (S f) (x02 :: r) =
+    match seq_len r with
+    | Some (n, r1) => dbind (pseq f n r1) (fun '(items, rest) => DOk (NSeq items, rest))
+    | None => DReject
+    end.
+  Proof. reflexivity. Qed.
+
+  Definition pdec_args (f : nat) (k : nat) (r1 : bytes) : dres (list node * bytes) :=
+    match k with
+    | 0 => DOk ([], r1)
+    | 1 => dbind (pdec f r1) (fun '(a, r2) => DOk ([a], r2))
+    | 2 => dbind (pdec f r1) (fun '(a, r2) =>
+           dbind (pdec f r2) (fun '(b, r3) => DOk ([a; b], r3)))
+    | _ => match seq_len r1 with
+           | Some (n, r2) => pseq f n r2
+           | None => DReject
+           end
+    end.
+
+  Lemma pdec_S_prim f tag t r1 k has :
+    prim_shape tag = Some (k, has) ->
+    pdec (S f) (tag :: t :: r1) =
+    if known t then
+      dbind (pdec_args f k r1) (fun '(args, r2) =>
+      dbind (dec_annots has r2) (fun '(annots, r3) => DOk (NPrim t args annots, r3)))
+    else DReject.
+  Proof.
+    destruct tag; try discriminate; intro H; injection H as <- <-; reflexivity.
+  Qed.
+
+  Lemma pdec_S_prim_short f tag : prim_shape tag <> None -> pdec (S f) [tag] = DReject.
+  Proof. destruct tag; try congruence; reflexivity. Qed.
+
+  Lemma pdec_S_other f tag r :
+    tag <> x00 -> tag <> x01 -> tag <> x02 -> tag <> x0a -> prim_shape tag = None ->
+    pdec (S f) (tag :: r) = DReject.
+  Proof. destruct tag; try congruence; try discriminate; reflexivity. Qed.
+
+  Lemma pseq_0 f bs : pseq f 0 bs = DOk ([], bs).
+  Proof. destruct f; reflexivity. Qed.
+
+  Lemma pseq_S f k bs :
+    pseq (S f) (S k) bs =
+    dbind (pdec f bs) (fun '(x, rest) =>
+      if Nat.leb (length bs - length rest) (S k)
+      then dbind (pseq f (S k - (length bs - length rest)) rest) (fun '(xs, rest') => DOk (x :: xs, rest'))
+      else DReject).
+  Proof. reflexivity. Qed.
+
+  Lemma pseq_fuel0 k bs : pseq 0 (S k) bs = DFuel.
+  Proof. reflexivity. Qed.
+
+  (* ---------------------------------------------------------------- completeness *)
+
+  Lemma pdec_complete :
+    (forall n e, Enc n e ->
+       forall f r, 2 * length e + 1 <= f -> pdec f (e ++ r) = DOk (n, r)) /\
+    (forall l e, EncList l e ->
+       forall f r, 2 * length e + 2 <= f -> pseq f (length e) (e ++ r) = DOk (l, r)).
+  Proof.
+    apply (Enc_EncList_mind known str_ok
+             (fun n e => forall f r, 2 * length e + 1 <= f -> pdec f (e ++ r) = DOk (n, r))
+             (fun l e => forall f r, 2 * length e + 2 <= f -> pseq f (length e) (e ++ r) = DOk (l, r))).
+    - intros z e HZ f r Hf. destruct f as [|f]; [lia|]. cbn [app]. rewrite pdec_S_int.
+      assert (D : dec_int (e ++ r) = Some (z, r)) by (apply dec_int_iff; eauto).
+      rewrite D. reflexivity.
+    - intros s Hfit Hs f r Hf. destruct f as [|f]; [lia|]. cbn [app].
+      rewrite pdec_S_str, take_arr_arr by exact Hfit. rewrite Hs. reflexivity.
+    - intros b Hfit f r Hf. destruct f as [|f]; [lia|]. cbn [app].
+      rewrite pdec_S_byt, take_arr_arr by exact Hfit. reflexivity.
+    - intros items body _ IH Hfit f r Hf. destruct f as [|f]; [lia|]. cbn [app].
+      cbn [length] in Hf. rewrite arr_length in Hf.
+      rewrite pdec_S_seq, seq_len_arr by exact Hfit. rewrite IH by lia. reflexivity.
+    - intros t has annots ea Hk HA f r Hf. destruct f as [|f]; [lia|]. cbn [app].
+      rewrite (pdec_S_prim f _ t _ 0 has) by (destruct has; reflexivity).
+      rewrite Hk. cbn [pdec_args dbind]. rewrite (AnnPart_dec str_ok _ _ _ _ HA). reflexivity.
+    - intros t has annots ea a e1 Hk _ IHa HA f r Hf. destruct f as [|f]; [lia|].
+      cbn [app]. cbn [length] in Hf. rewrite app_length in Hf.
+      rewrite (pdec_S_prim f _ t _ 1 has) by (destruct has; reflexivity).
+      rewrite Hk. cbn [pdec_args]. rewrite <- app_assoc. rewrite IHa by lia. cbn [dbind].
+      rewrite (AnnPart_dec str_ok _ _ _ _ HA). reflexivity.
+    - intros t has annots ea a e1 b e2 Hk _ IHa _ IHb HA f r Hf.
+      destruct f as [|f]; [lia|]. cbn [app]. cbn [length] in Hf. rewrite !app_length in Hf.
+      rewrite (pdec_S_prim f _ t _ 2 has) by (destruct has; reflexivity).
+      rewrite Hk. cbn [pdec_args]. rewrite <- !app_assoc. rewrite IHa by lia. cbn [dbind].
+      rewrite IHb by lia. cbn [dbind]. rewrite (AnnPart_dec str_ok _ _ _ _ HA). reflexivity.
+    - intros t annots ea args body Hk _ IH Hfit HA f r Hf.
+      destruct f as [|f]; [lia|]. cbn [app]. cbn [length] in Hf.
+      rewrite app_length, arr_length in Hf.
+      rewrite (pdec_S_prim f _ t _ 3 true) by reflexivity.
+      rewrite Hk. cbn [pdec_args]. rewrite <- app_assoc, seq_len_arr by exact Hfit.
+      rewrite IH by lia. cbn [dbind]. rewrite (AnnPart_dec str_ok _ _ _ _ HA). reflexivity.
+    - intros f r _. apply pseq_0.
+    - intros x e xs es Hx IHx _ IHxs f r Hf. destruct f as [|f]; [lia|].
+      rewrite app_length in Hf |- *. pose proof (Enc_nonempty known str_ok _ _ Hx) as Hne.
+      destruct e as [|b e']; [congruence|]. cbn [length plus] in *.
+      rewrite pseq_S. rewrite <- app_assoc. rewrite IHx by (cbn [length]; lia). cbn [dbind].
+      rewrite !app_length. cbn [length].
+      replace (S (length e') + (length es + length r) - (length es + length r)) with (S (length e')) by lia.
+      destruct (Nat.leb (S (length e')) (S (length e' + length es))) eqn:E;
+        [|apply Nat.leb_gt in E; lia].
+      replace (S (length e' + length es) - S (length e')) with (length es) by lia.
+      rewrite IHxs by lia. reflexivity.
+  Qed.
+
+  (* ---------------------------------------------------------------- soundness *)
+
+  Lemma pdec_sound : forall f,
+    (forall bs n r, pdec f bs = DOk (n, r) -> exists e, bs = e ++ r /\ Enc n e) /\
+    (forall k bs l r, pseq f k bs = DOk (l, r) ->
+       exists e, bs = e ++ r /\ length e = k /\ EncList l e).
+  Proof.
+    assert (Hseq : forall n r1 items rest,
+              (N.of_nat n < two32)%N ->
+              (exists e, r1 = e ++ rest /\ length e = n /\ EncList items e) ->
+              exists body, be32 n ++ r1 = arr body ++ rest /\ fits body = true /\ EncList items body).
+    { intros n r1 items rest Hn (e & -> & <- & HL). exists e. split; [|split; [|exact HL]].
+      - unfold arr. rewrite <- app_assoc. reflexivity.
+      - unfold fits. lia. }
+    induction f as [|f [IHd IHl]]; split.
+    - intros bs n r H. discriminate H.
+    - intros k bs l r H. destruct k; [|discriminate H]. injection H as <- <-.
+      exists []. repeat split. constructor.
+    - intros bs n r H. destruct bs as [|tag r0]; [discriminate H|].
+      destruct (tag_cases tag) as [->|[->|[->|[->|[(k & has & Hsh)|(N0 & N1 & N2 & Na & Hsh)]]]]].
+      + rewrite pdec_S_int in H. destruct (dec_int r0) as [[z rest]|] eqn:D; [|discriminate].
+        injection H as <- <-. apply dec_int_iff in D. destruct D as (e & -> & HZ).
+        exists (x00 :: e). split; [reflexivity|]. constructor. exact HZ.
+      + rewrite pdec_S_str in H. destruct (take_arr r0) as [[s rest]|] eqn:T; [|discriminate].
+        destruct (str_ok s) eqn:S; [|discriminate]. injection H as <- <-.
+        apply take_arr_sound in T. destruct T as [-> Hf].
+        exists (x01 :: arr s). split; [reflexivity|]. constructor; assumption.
+      + rewrite pdec_S_seq in H. destruct (seq_len r0) as [[n0 r1]|] eqn:T; [|discriminate].
+        destruct (pseq f n0 r1) as [[items rest]| |] eqn:DL; cbn [dbind] in H; try discriminate.
+        injection H as <- <-. apply seq_len_sound in T. destruct T as (-> & _ & Hn).
+        destruct (Hseq _ _ _ _ Hn (IHl _ _ _ _ DL)) as (body & E & Hf & HL).
+        exists (x02 :: arr body). split; [cbn [app]; rewrite E; reflexivity|]. constructor; assumption.
+      + rewrite pdec_S_byt in H. destruct (take_arr r0) as [[b rest]|] eqn:T; [|discriminate].
+        injection H as <- <-. apply take_arr_sound in T. destruct T as [-> Hf].
+        exists (x0a :: arr b). split; [reflexivity|]. constructor; assumption.
+      + destruct r0 as [|t r1].
+        { rewrite pdec_S_prim_short in H by congruence. discriminate. }
+        rewrite (pdec_S_prim f tag t r1 k has Hsh) in H.
+        destruct (known t) eqn:K; [|discriminate].
+        destruct (pdec_args f k r1) as [[args r2]| |] eqn:DA; cbn [dbind] in H; try discriminate.
+        destruct (dec_annots has r2) as [[annots r3]| |] eqn:DN; cbn [dbind] in H; try discriminate.
+        injection H as <- <-. apply (dec_annots_sound str_ok) in DN. destruct DN as (ea & -> & HA).
+        apply prim_shape_inv in Hsh.
+        destruct Hsh as [[-> ->]|[[-> ->]|[[-> ->]|(-> & -> & ->)]]]; cbn [pdec_args] in DA.
+        * injection DA as <- ->. exists ((if has then x04 else x03) :: t :: ea).
+          split; [reflexivity|]. constructor; assumption.
+        * destruct (pdec f r1) as [[a r2']| |] eqn:D1; cbn [dbind] in DA; try discriminate.
+          injection DA as <- ->. apply IHd in D1. destruct D1 as (e1 & -> & H1).
+          exists ((if has then x06 else x05) :: t :: e1 ++ ea).
+          split; [cbn [app]; rewrite <- app_assoc; reflexivity|]. constructor; assumption.
+        * destruct (pdec f r1) as [[a r2']| |] eqn:D1; cbn [dbind] in DA; try discriminate.
+          destruct (pdec f r2') as [[b r3']| |] eqn:D2; cbn [dbind] in DA; try discriminate.
+          injection DA as <- ->. apply IHd in D1. destruct D1 as (e1 & -> & H1).
+          apply IHd in D2. destruct D2 as (e2 & -> & H2).
+          exists ((if has then x08 else x07) :: t :: e1 ++ e2 ++ ea).
+          split; [cbn [app]; rewrite <- !app_assoc; reflexivity|]. constructor; assumption.
+        * destruct (seq_len r1) as [[n0 r2']|] eqn:T; [|discriminate].
+          apply seq_len_sound in T. destruct T as (-> & _ & Hn).
+          destruct (Hseq _ _ _ _ Hn (IHl _ _ _ _ DA)) as (body & E & Hf & HL).
+          exists (x09 :: t :: arr body ++ ea).
+          split; [cbn [app]; rewrite E, <- app_assoc; reflexivity|].
+          constructor; assumption.
+      + rewrite pdec_S_other in H by assumption. discriminate.
+    - intros k bs l r H. destruct k as [|k].
+      { rewrite pseq_0 in H. injection H as <- <-. exists []. repeat split. constructor. }
+      rewrite pseq_S in H.
+      destruct (pdec f bs) as [[x rest]| |] eqn:D; cbn [dbind] in H; try discriminate.
+      apply IHd in D. destruct D as (e1 & -> & Hx).
+      rewrite app_length in H.
+      replace (length e1 + length rest - length rest) with (length e1) in H by lia.
+      destruct (Nat.leb (length e1) (S k)) eqn:E; [|discriminate]. apply Nat.leb_le in E.
+      destruct (pseq f (S k - length e1) rest) as [[xs rest']| |] eqn:DL; cbn [dbind] in H; try discriminate.
+      injection H as <- <-. apply IHl in DL. destruct DL as (es & -> & Hlen & HL).
+      exists (e1 ++ es). split; [rewrite app_assoc; reflexivity|]. split.
+      + rewrite app_length. lia.
+      + constructor; assumption.
+  Qed.
+
+  Lemma pdec_shorter f bs n r : pdec f bs = DOk (n, r) -> length r < length bs.
+  Proof.
+    intro H. apply (proj1 (pdec_sound f)) in H. destruct H as (e & -> & He).
+    apply (Enc_nonempty known str_ok) in He. rewrite app_length. destruct e; [congruence|cbn [length]; lia].
+  Qed.
+
+  Lemma pseq_shorter f k bs l r : pseq f k bs = DOk (l, r) -> length r <= length bs.
+  Proof.
+    intro H. apply (proj2 (pdec_sound f)) in H. destruct H as (e & -> & _ & _).
+    rewrite app_length. lia.
+  Qed.
+
+  (* ---------------------------------------------------------------- fuel *)
+
+  Lemma pdec_fuel_ok : forall f,
+    (forall bs, 2 * length bs + 1 <= f -> pdec f bs <> DFuel) /\
+    (forall k bs, 2 * length bs + 2 <= f -> pseq f k bs <> DFuel).
+  Proof.
+    induction f as [|f [IHd IHl]]; split.
+    - intros bs H. lia.
+    - intros k bs H. lia.
+    - intros bs Hf. destruct bs as [|tag r0]; [discriminate|]. cbn [length] in Hf.
+      destruct (tag_cases tag) as [->|[->|[->|[->|[(k & has & Hsh)|(N0 & N1 & N2 & Na & Hsh)]]]]].
+      + rewrite pdec_S_int. destruct (dec_int r0) as [[z rest]|]; discriminate.
+      + rewrite pdec_S_str. destruct (take_arr r0) as [[s rest]|]; [|discriminate].
+        destruct (str_ok s); discriminate.
+      + rewrite pdec_S_seq. destruct (seq_len r0) as [[n0 r1]|] eqn:T; [|discriminate].
+        apply seq_len_sound in T. destruct T as (-> & _ & _).
+        rewrite app_length, be32_length in Hf.
+        destruct (pseq f n0 r1) as [[items rest]| |] eqn:DL; cbn [dbind]; try discriminate.
+        exfalso. apply (IHl n0 r1); [lia|exact DL].
+      + rewrite pdec_S_byt. destruct (take_arr r0) as [[b rest]|]; discriminate.
+      + destruct r0 as [|t r1].
+        { rewrite pdec_S_prim_short by congruence. discriminate. }
+        cbn [length] in Hf.
+        rewrite (pdec_S_prim f tag t r1 k has Hsh).
+        destruct (known t); [|discriminate].
+        assert (HA : pdec_args f k r1 <> DFuel).
+        { apply prim_shape_inv in Hsh.
+          destruct Hsh as [[-> _]|[[-> _]|[[-> _]|(-> & _ & _)]]]; cbn [pdec_args].
+          - discriminate.
+          - destruct (pdec f r1) as [[a r2]| |] eqn:D1; cbn [dbind]; try discriminate.
+            exfalso. apply (IHd r1); [lia|exact D1].
+          - destruct (pdec f r1) as [[a r2]| |] eqn:D1; cbn [dbind]; try discriminate.
+            + pose proof (pdec_shorter _ _ _ _ D1) as Hs.
+              destruct (pdec f r2) as [[b r3]| |] eqn:D2; cbn [dbind]; try discriminate.
+              exfalso. apply (IHd r2); [lia|exact D2].
+            + exfalso. apply (IHd r1); [lia|exact D1].
+          - destruct (seq_len r1) as [[n0 r2]|] eqn:T; [|discriminate].
+            apply seq_len_sound in T. destruct T as (-> & _ & _).
+            rewrite app_length, be32_length in Hf.
+            apply IHl. lia. }
+        destruct (pdec_args f k r1) as [[args r2]| |]; cbn [dbind]; try discriminate; [|congruence].
+        pose proof (dec_annots_no_fuel str_ok has r2) as HN.
+        destruct (dec_annots has r2) as [[annots r3]| |]; cbn [dbind]; try discriminate. congruence.
+      + rewrite pdec_S_other by assumption. discriminate.
+    - intros k bs Hf. destruct k as [|k]; [rewrite pseq_0; discriminate|].
+      rewrite pseq_S.
+      destruct (pdec f bs) as [[x rest]| |] eqn:D; cbn [dbind]; try discriminate.
+      + pose proof (pdec_shorter _ _ _ _ D) as Hs.
+        destruct (Nat.leb (length bs - length rest) (S k)); [|discriminate].
+        destruct (pseq f (S k - (length bs - length rest)) rest) as [[xs rest']| |] eqn:DL;
+          cbn [dbind]; try discriminate.
+        exfalso. refine (IHl _ rest _ DL). lia.
+      + exfalso. apply (IHd bs); [lia|exact D].
+  Qed.
+
+  (* ---------------------------------------------------------------- the two decoders agree *)
+
+  Lemma pdec_full_iff bs n : pdec_full_gen known str_ok bs = DOk n <-> Enc n bs.
+  Proof.
+    unfold pdec_full_gen. split.
+    - destruct (pdec (fuel_for bs) bs) as [[m r]| |] eqn:D; try discriminate.
+      destruct r as [|x r]; [|discriminate]. intro H. injection H as ->.
+      apply (proj1 (pdec_sound _)) in D. destruct D as (e & -> & He).
+      rewrite app_nil_r. exact He.
+    - intro H. pose proof (proj1 pdec_complete _ _ H (fuel_for bs) []) as D.
+      rewrite app_nil_r in D. rewrite D; [reflexivity|]. unfold fuel_for. lia.
+  Qed.
+
+  Lemma pdec_full_fuel_ok bs : pdec_full_gen known str_ok bs <> DFuel.
+  Proof.
+    unfold pdec_full_gen.
+    pose proof (proj1 (pdec_fuel_ok (fuel_for bs)) bs) as H.
+    destruct (pdec (fuel_for bs) bs) as [[m [|x r]]| |]; try discriminate.
+    exfalso. apply H; [unfold fuel_for; lia|reflexivity].
+  Qed.
+
+  Theorem pdec_full_eq bs : pdec_full_gen known str_ok bs = dec_full_gen known str_ok bs.
+  Proof.
+    pose proof (pdec_full_fuel_ok bs) as HP. pose proof (dec_full_fuel_ok known str_ok bs) as HD.
+    destruct (dec_full_gen known str_ok bs) as [n| |] eqn:D.
+    - apply dec_full_iff in D. apply pdec_full_iff, D.
+    - destruct (pdec_full_gen known str_ok bs) as [m| |] eqn:P; [|reflexivity|congruence].
+      apply pdec_full_iff in P. apply (dec_full_iff known str_ok) in P. congruence.
+    - congruence.
+  Qed.
+End Index.
+
+Lemma pdec_full_eq_py bs : pdec_full bs = dec_full bs.
+Proof. unfold pdec_full, dec_full. apply pdec_full_eq. Qed.
